@@ -56,7 +56,9 @@ var goodNames = []string{"x.go", "y.go", "go.mod", "LICENSE", "README.md", "a/x.
 	"..data/config.yaml", "..keep", "..2024_01_01/x.txt", "sub/..inner/y.txt", "...x"}
 var badNames = []string{"..", "../x", "../../x", "../../../escape.txt", "a/../../x", "a/../b", "/abs", "/etc/passwd", "a\\b", "..\\x", "", ".", "./x", "a/", "a//b", "a/./b", "con", "aux.go", "NUL/x", "a~1", "f|g", "f:g", "trailing.", "x.go/", "x.go/child", "A/x.go", "a/X.GO", "README.MD", "readme.md", "GO.MOD", "Go.mod", "sub/go.mod", "a/GO.MOD", "a/b/go.mod", "deep/er/still/go.mod", "a/b/c/Go.Mod", "go.mod/x", "x\x00y", "\xff", "K.go", "k.go", "\u212a/x.go", "\u212a", "k/y.go", "k", "\u017f/x.go", "s", "S/z.go", "\u212b/q", "\u00e5", "ﬀ", "ff", "a/b/", "a/b", "a", "LICENSE/", "deep/", "deep/er",
 	// reserved device names with several suffixes (the name before the FIRST dot counts)
-	"pkg/aux.tar.gz", "pkg/NUL.pb.go", "com1.conf.d/x.go", "lpt9.a.b.c", "com9", "a/LPT9.txt"}
+	"pkg/aux.tar.gz", "pkg/NUL.pb.go", "com1.conf.d/x.go", "lpt9.a.b.c", "com9", "a/LPT9.txt",
+	// directory entries with more than one trailing slash (not clean)
+	"pkg//", "pkg/sub///", "a/b//", "//"}
 var prefixes = []string{"GOOD", "GOOD", "GOOD", "GOOD", "GOOD", "GOOD", "GOOD", "GOOD", "", "UPPER", "OTHERVERSION", "NOSLASH", "OTHERPATH", "DOUBLE"}
 
 var ids = [][2]string{{"example.com/m", "v1.0.0"}, {"example.com/m", "v1.0.0"}, {"example.com/Mixed/Case", "v0.1.0"}, {"example.com/m/v2", "v2.0.0"}, {"gopkg.in/yaml.v2", "v2.4.0"}}
@@ -155,6 +157,14 @@ func genCase(t *rapid.T) unzipCase {
 			e.DirMode = true
 		}
 		c.Entries = append(c.Entries, e)
+	}
+	if gen.Chance(t, 6, "crctwins") {
+		// two files of equal length and equal CRC-32 with different contents
+		a := []byte("package twins\n\nconst N = 4444\n// pad pad\n")
+		if b := gen.CRCTwin(a); b != nil {
+			c.Entries = append(c.Entries, entry{Name: prefixFor("GOOD", c.Path, c.Version) + "twins/one.go", Content: a, DeclSize: -1, Deflate: gen.Chance(t, 50, "twindeflate")},
+				entry{Name: prefixFor("GOOD", c.Path, c.Version) + "a/two.go", Content: b, DeclSize: -1})
+		}
 	}
 	if hostile && gen.Chance(t, 15, "dupentry") && len(c.Entries) > 0 {
 		c.Entries = append(c.Entries, c.Entries[gen.Uniform(t, len(c.Entries), "dupof")])
